@@ -1,7 +1,7 @@
 /-
   C15 print/parse, part 8: the induction over fragment trees — closed forms.
 -/
-import RsjProofs.ParserRun7
+import RsjProofs.ParserRun7b
 namespace Rsj.Parser
 
 section
@@ -9,7 +9,7 @@ variable {toks : List Token} (pe : PState toks → Except (Err toks) (Expr × PS
 
 /-- no postfix part -/
 theorem SL_nil {t : Expr} (h1 : headOf t = t) (h2 : sufToks t = []) : SLs pe R t := by
-  intro lhs st y Y hl hk _
+  intro lhs st y Y hl hk _ _
   rw [h2] at hk
   rw [h1] at hl
   exact ⟨lhs, st, hl, hk, fun f hf => ⟨f, hf, rfl⟩⟩
@@ -108,10 +108,10 @@ theorem field_all {e : Expr} (name : Ident) (sp : Span) (he : Frag e) (hd : HDs 
       ∀ p, LQat pe R (.field e name sp) p := by
   have hd' : HDs pe R (.field e name sp) := hd
   have sl' : SLs pe R (.field e name sp) := by
-    intro lhs st y Y hl hk hR
+    intro lhs st y Y hl hk hR _
     have hk0 : st.kinds = sufToks e ++ sim .Dot :: (.ident name.value :: y :: Y) := by
       rw [hk]; simp [sufToks]
-    obtain ⟨e', st1, he', hk1, hsl⟩ := sl lhs st (sim .Dot) (.ident name.value :: y :: Y) hl hk0 hR
+    obtain ⟨e', st1, he', hk1, hsl⟩ := sl lhs st (sim .Dot) (.ident name.value :: y :: Y) hl hk0 hR (by decide)
     obtain ⟨sp1, sp2, st2, hk2, hstep⟩ := suffix_field pe e' hk1
     refine ⟨.field e' ⟨name.value, sp1⟩ sp2, st2, ?_, hk2, ?_⟩
     · simp [Expr.erase, he', Ident.erase]
@@ -129,7 +129,7 @@ theorem index_all {e i : Expr} (sp : Span) (he : Frag e) (hi : Frag i) (hh : Han
       ∀ p, LQat pe R (.index e i sp) p := by
   have hd' : HDs pe R (.index e i sp) := hd
   have sl' : SLs pe R (.index e i sp) := by
-    intro lhs st y Y hl hk hR
+    intro lhs st y Y hl hk hR _
     obtain ⟨x, X, hx⟩ : ∃ x X, P i 0 = x :: X := by
       have := (first_tok hi 0).1
       cases hp : P i 0 with
@@ -142,6 +142,7 @@ theorem index_all {e i : Expr} (sp : Span) (he : Frag e) (hi : Frag i) (hh : Han
     have hk0 : st.kinds = sufToks e ++ sim .LeftBracket :: (P i 0 ++ sim .RightBracket :: y :: Y) := by
       rw [hk]; simp [sufToks]
     obtain ⟨e', st1, he', hk1, hsl⟩ := sl lhs st (sim .LeftBracket) (P i 0 ++ sim .RightBracket :: y :: Y) hl hk0 hR
+      (by decide)
     have hlen1 : st1.kinds.length ≤ R := by
       have : st1.kinds.length ≤ st.kinds.length := by rw [hk1, hk0]; simp
       omega
@@ -220,14 +221,6 @@ theorem op_prec_tok {op : BinaryOp} {k : BinKind} {tok : STok} (h : op.info = so
   rw [h]
   exact ⟨rfl, rfl⟩
 
-
-omit pe R in
-theorem P_nonempty {e : Expr} (h : Frag e) (lvl : Nat) : ∃ a l, P e lvl = a :: l ∧
-    (a = sim .Super → ∃ r2, l = sim .Dot :: r2 ∨ l = sim .LeftBracket :: r2) := by
-  have := (first_tok h lvl).1
-  cases hp : P e lvl with
-  | nil => rw [hp] at this; exact this.elim
-  | cons a l => rw [hp] at this; exact ⟨a, l, rfl, this.2⟩
 
 theorem binary_bare {l r : Expr} (op : BinaryOp) (sp : Span) (hl : Frag l) (hr : Frag r)
     (hql : ∀ p, LQat pe R l p) (hqr : ∀ p, LQat pe R r p) (h10r : L10s pe R r)
@@ -366,6 +359,36 @@ theorem inSuper_all {e : Expr} (ssp sp : Span) (he : Frag e) (hqe : ∀ p, LQat 
   intro lvl hlvl
   rw [P_inSuper_par he ssp sp hlvl, P_inSuper_bare he ssp sp (by omega)]
 
+theorem call_all {f : Expr} (args : List Arg) (ts : Bool) (sp : Span) (hf : Frag f)
+    (hall : ∀ a ∈ args, Frag a.expr ∧ Handles pe R a.expr) (hd : HDs pe R f) (sl : SLs pe R f) :
+    HDs pe R (.call f args ts sp) ∧ SLs pe R (.call f args ts sp) ∧ L10s pe R (.call f args ts sp) ∧
+      ∀ p, LQat pe R (.call f args ts sp) p := by
+  have hd' : HDs pe R (.call f args ts sp) := hd
+  have sl' : SLs pe R (.call f args ts sp) := by
+    intro lhs st y Y hl hk hR hy
+    have hk0 : st.kinds = sufToks f ++ sim .LeftParen :: (prArgs false args ++ sim .RightParen ::
+        ((if ts then [sim .Tailstrict] else []) ++ y :: Y)) := by
+      rw [hk]; simp [sufToks]
+    obtain ⟨f', st1, hf', hk1, hsl⟩ := sl lhs st (sim .LeftParen) _ hl hk0 hR (by decide)
+    have hlen1 : st1.kinds.length ≤ R := by
+      have : st1.kinds.length ≤ st.kinds.length := by rw [hk1, hk0]; simp
+      omega
+    obtain ⟨args', sp', st2, hea, hk2, hstep⟩ := suffix_call pe R f' args ts hall hk1 hlen1 hy
+    refine ⟨.call f' args' ts sp', st2, ?_, hk2, ?_⟩
+    · simp [Expr.erase, hf', hea]
+    · intro fu hfu
+      obtain ⟨f1, hf1, heq⟩ := hsl fu hfu
+      have hal : args.length + 2 ≤ st1.kinds.length := by
+        rw [hk1]
+        have : args.length ≤ (prArgs false args).length := prArgs_length args (fun a ha => (hall a ha).1)
+        simp; omega
+      obtain ⟨f2, rfl⟩ : ∃ f2, f1 = f2 + 1 := ⟨f1 - 1, by omega⟩
+      refine ⟨f2, ?_, by rw [heq, hstep f2 (by omega)]⟩
+      rw [hk1] at hf1; rw [hk2]; simp at hf1 ⊢; omega
+  have := closed_all pe R (.call args ts sp hf (fun a ha => (hall a ha).1))
+    (fun lvl => by rw [P_call hf, P_call hf]) hd' sl'
+  exact ⟨hd', sl', this.1, this.2⟩
+
 /-- **All machine lemmas for every fragment tree** whose bracketed subexpressions `pe` handles. -/
 theorem frag_all {t : Expr} (h : Br (Handles pe R) t) :
     HDs pe R t ∧ SLs pe R t ∧ L10s pe R t ∧ ∀ p, LQat pe R t p := by
@@ -390,6 +413,7 @@ theorem frag_all {t : Expr} (h : Br (Handles pe R) t) :
   | field name sp he ih => exact field_all pe R name sp he.frag ih.1 ih.2.1
   | index sp he hi hh ih => exact index_all pe R sp he.frag hi hh ih.1 ih.2.1
   | inSuper ssp sp he ih => exact inSuper_all pe R ssp sp he.frag ih.2.2.2
+  | call args ts sp hf ha ih => exact call_all pe R args ts sp hf.frag ha ih.1 ih.2.1
 
 end
 end Rsj.Parser
